@@ -420,7 +420,7 @@ func workC03(w *run.W) {
 	pal := model.DefaultPalette()
 	idx := int64(-1)
 	rich := c03RichDocs()
-	only := map[string]bool{"sep": true, "sep-after-text": true, "blank": true, "quote": true, "ann": true, "trail": true, "explicit": true, "prebody": true, "textparen": true, "body": true, "postbody": true, "paramorder": true}
+	only := map[string]bool{"sep": true, "sep-after-text": true, "blank": true, "quote": true, "ann": true, "trail": true, "explicit": true, "prebody": true, "textparen": true, "body": true, "postbody": true, "paramorder": true, "annglue": true}
 	richMode := false
 	var fidx int64
 	each := func(fn func(d *model.Doc)) {
